@@ -2,6 +2,7 @@ import BSModel.Proofs.Render
 import BSModel.Proofs.Reparse
 import BSModel.Proofs.ReparseIdem
 import BSModel.Proofs.ReparseLaws
+import BSModel.Proofs.ReparseRepr
 import BSModel.Gen.Render
 import BSModel.Props.C09
 import BSModel.Proofs.RenderEnt
@@ -184,11 +185,11 @@ theorem void_prefix_slash :
     outside `[a-z][-.a-z0-9:_]*` and attribute names outside `[a-z_:][-.a-z0-9:_]*` (the tokenizer lower-cases
     and delimits names), duplicate attribute keys, hidden elements below the root, elements whose name is void for
     the re-parsing builder but which have children, elements (or comments, …) inside script/style, `</` in
-    script/style text, elements for which the writer's and the reader's notion of raw content differ (a prefixed
+    what is written between `<script>`/`<style>` and its end tag (the concatenation of the strings), elements for which the writer's and the reader's notion of raw content differ (a prefixed
     `x:script`; `script`/`style` under an XML formatter), empty text strings, bare `PreformattedString`s, `--`/a
     trailing `-`/a leading `>` or `->` in comments, `]` or `>` in CDATA sections, `>` in processing instructions,
     declarations and doctypes. -/
-abbrev Representable (p : PCfg) (f : Fmt) (ds : List Node) : Prop := representableL p f false ds = true
+abbrev Representable (p : PCfg) (f : Fmt) (ds : List Node) : Prop := representableL p f ds = true
 
 instance (p : PCfg) (f : Fmt) (ds : List Node) : Decidable (Representable p f ds) := by
   unfold Representable; infer_instance
@@ -203,7 +204,7 @@ instance (p : PCfg) (f : Fmt) (ds : List Node) : Decidable (Representable p f ds
     interplay of `already_closed_empty_element` is never triggered by rendered output. -/
 theorem reparse_roundtrip (p : PCfg) (f : Fmt) (ds : List Node) (h : Representable p f ds) :
     build p (emitRL f ds) = normaliseL p f ds := by
-  have hv := representableL_voidOkL p f false ds h
+  have hv := representableL_voidOkL p f ds h
   simp only [build]
   rw [run_forest p f ds _ [] [] hv]
   simp [flush_eq, closeAll, closeAllAux, normaliseL, ctxOf, rootFrame]
@@ -347,6 +348,29 @@ theorem second_roundtrip_fixpoint (p : PCfg) (f : Fmt) (hp : ConfigOK p)
 
 example : Representable livePCfg minimalHtml (normaliseL livePCfg minimalHtml demo2) := by decide
 
+/-- The normal form of a representable forest is representable again — for every configuration whose string
+    containers are text classes and every formatter that agrees with the re-parser on the raw-content elements or has
+    none (`CdataAgree`; true of every formatter of both live registries: `registry_cdata_agree`). -/
+theorem representable_normal_form (p : PCfg) (f : Fmt) (hc : contOK p = true) (hcd : CdataAgree p f) (ds : List Node)
+    (h : Representable p f ds) : Representable p f (normaliseL p f ds) :=
+  representable_normalise p f hc hcd ds h
+
+theorem registry_cdata_agree :
+    ∀ x, (∀ e ∈ registryOf x, e.2.cdataTags = livePCfg.cdataElems ∨ e.2.cdataTags = []) ∧
+      ((ctorDefaults x).cdataTags = livePCfg.cdataElems ∨ (ctorDefaults x).cdataTags = []) := by decide
+
+/-- **Parse-then-render is idempotent** (event level), with no hypothesis about the intermediate tree: for every
+    representable, doctype-stable forest the second re-parse builds the same forest as the first — hence its rendering,
+    a function of the forest, is the same text. -/
+theorem parse_render_idempotent (p : PCfg) (f : Fmt) (hp : ConfigOK p) (hcd : CdataAgree p f) (ds : List Node)
+    (h : Representable p f ds) (hs : DoctypeStable p ds) :
+    build p (emitRL f (build p (emitRL f ds))) = build p (emitRL f ds) :=
+  second_roundtrip_fixpoint p f hp ds h (representable_normal_form p f hp.1 hcd ds h) hs
+
+example : CdataAgree livePCfg minimalHtml ∧ CdataAgree livePCfg minimalXml := ⟨Or.inl (by decide), Or.inr rfl⟩
+example : build livePCfg (emitRL minimalHtml (build livePCfg (emitRL minimalHtml demo2))) = build livePCfg (emitRL minimalHtml demo2) :=
+  parse_render_idempotent _ _ live_config_ok (Or.inl (by decide)) _ (by decide) (by decide)
+
 /-! ## 7. which formatter `decode` uses; the XML flavour -/
 
 /-- the live environment of `formatter_for_name`: both registries, the constructor defaults for a callable, and the
@@ -473,7 +497,7 @@ theorem html_reader_laws (late : Bool) (vp : PStr) (cd : List PStr) (eb : Bool) 
 theorem reparse_roundtrip_rd (p : PCfg) (rd : Reader) (f : Fmt) (hl : ReaderLaws rd f) (ds : List Node)
     (h : Representable p f ds) :
     build p (emitRdL p rd f none false ds) = normaliseL p f ds := by
-  rw [emitRdL_eq p rd f hl ds none false rfl h]
+  rw [emitRdL_eq p rd f hl ds none rfl h]
   exact reparse_roundtrip p f ds h
 
 /-- **'minimal' and 'html', HTML and XML flavour, unconditionally**: whichever of the four registered formatters
@@ -499,7 +523,7 @@ theorem reparse_roundtrip_registry (x late : Bool) (k : PStr) (hk : k = ofS "min
 
 /-- the written form really is read back: `a<b` under `<p>`, `1<2` raw under `<script>`, a value with both quotes -/
 example : emitRdL livePCfg (c09Reader false) minimalHtml none false [demo] = emitRL minimalHtml [demo] :=
-  emitRdL_eq _ _ _ (minimal_reader_laws false _ _ _) _ none false rfl (by decide)
+  emitRdL_eq _ _ _ (minimal_reader_laws false _ _ _) _ none rfl (by decide)
 
 /-! ## 10. "the same elements, attributes, text and special strings": laws of the normal form
 
